@@ -97,6 +97,31 @@ pub fn run() -> i32 {
                         let cvec: Result<Vec<u8>, _> = kv.derive_subkey(id);
                         let (pk, pc) = k.clone().into_parts();
                         let okobj = a.map(|x| x.to_vec()).ok() == want && b.ok() == want && cvec.ok() == want && pk.as_slice() == &key[..] && pc.as_slice() == &c[..];
+                        // Vec containers longer than the fixed lengths: the object API and the classic
+                        // function are handed the very same containers; the object API may refuse
+                        // them, but it must not silently derive something else than the classic call
+                        if ci < 2 && (id < 4 || id == u64::MAX) {
+                            for extra in [1usize, 8, 32] {
+                                let mut kl = key.to_vec();
+                                kl.extend(std::iter::repeat(0xA7u8).take(extra));
+                                let mut cl = c.to_vec();
+                                cl.extend(std::iter::repeat(0x5Bu8).take(extra));
+                                let (kl2, cl2) = (kl.clone(), cl.clone());
+                                let obj = guarded(AssertUnwindSafe(move || Kdf::<Vec<u8>, Vec<u8>>::from_parts(kl2, cl2).derive_subkey_to_vec(id).ok()));
+                                let cls = guarded(AssertUnwindSafe(move || {
+                                    let mut out = [0u8; 32];
+                                    crypto_kdf_derive_from_key(&mut out, id, dryoc::types::ByteArray::<8>::as_array(&cl), dryoc::types::ByteArray::<32>::as_array(&kl)).ok().map(|_| out.to_vec())
+                                }));
+                                let consistent = match (&obj, &cls) {
+                                    (Ok(Some(a)), Ok(Some(b))) => a == b,
+                                    _ => true, // a refusal (Err or panic) on either side is not a divergence
+                                };
+                                st.eval(&("obj-oversize", ki, id, ci, extra), true, if consistent { "Kdf-object-consistent(oversize containers)" } else { "Kdf-object-diverges(oversize containers)" });
+                                if !consistent {
+                                    st.fail(Fail { check: "C12.kdf".into(), signature: "C12/object/diverges-from-classic/oversize-container".into(), what: format!("Kdf<Vec, Vec> holding a {}-byte key and a {}-byte context container: derive_subkey(id {}) silently differs from crypto_kdf_derive_from_key on the same containers", 32 + extra, 8 + extra, id), case: json!({"len": 32, "id": id, "ctx": hx(c), "key": hx(&key)}) });
+                                }
+                            }
+                        }
                         st.eval(&("obj", ki, id, ci), true, if okobj { "Kdf-object==libsodium" } else { "Kdf-object-differs" });
                         if !okobj {
                             st.fail(Fail { check: "C12.kdf".into(), signature: "C12/object/differs".into(), what: format!("Kdf::derive_subkey id {} differs from libsodium", id), case: json!({"len": 32, "id": id, "ctx": hx(c), "key": hx(&key)}) });
